@@ -19,13 +19,15 @@ import (
 )
 
 type hSubscriber struct {
-	calls int
+	calls  int
+	epochs []phase0.Epoch // the epoch of each subscription asked for
 	// next, when set, is what the next subscription returns
 	next map[phase0.Slot]map[phase0.CommitteeIndex]*beaconcommitteesubscriber.Subscription
 }
 
-func (h *hSubscriber) Subscribe(_ context.Context, _ phase0.Epoch, _ map[phase0.ValidatorIndex]e2wtypes.Account) (map[phase0.Slot]map[phase0.CommitteeIndex]*beaconcommitteesubscriber.Subscription, error) {
+func (h *hSubscriber) Subscribe(_ context.Context, epoch phase0.Epoch, _ map[phase0.ValidatorIndex]e2wtypes.Account) (map[phase0.Slot]map[phase0.CommitteeIndex]*beaconcommitteesubscriber.Subscription, error) {
 	h.calls++
+	h.epochs = append(h.epochs, epoch)
 	if h.next != nil {
 		return h.next, nil
 	}
@@ -111,7 +113,8 @@ func VerifC03_RefreshAttester() {
 		accounts.none = true
 	}
 	e.s.validatingAccountsProvider = accounts
-	e.s.beaconCommitteeSubscriber = &hSubscriber{}
+	sub := &hSubscriber{}
+	e.s.beaconCommitteeSubscriber = sub
 	cur := uint64(e.ct.Cur)
 	vnd.Assume(cur >= 4 && cur < 1<<30)
 	epoch := cur / 2
@@ -138,6 +141,14 @@ func VerifC03_RefreshAttester() {
 	}
 	e.s.refreshAttesterDutiesForEpoch(context.Background(), phase0.Epoch(epoch))
 	vnd.Quiesce()
+	// the committees of the reshuffled duties are subscribed to for the epoch that was refreshed (here the
+	// current one: its previous duty dependent root changed), not for another
+	for _, se := range sub.epochs {
+		vnd.Assert(uint64(se) == epoch, "C14.refresh.beacon-committee-subscription-is-for-the-epoch-refreshed")
+	}
+	if !accounts.failAll && !accounts.none {
+		vnd.Assert(len(sub.epochs) == 1, "C14.refresh.reshuffled-duties-are-subscribed-for-once")
+	}
 	for k := 0; k < 2; k++ {
 		slot := first + uint64(k)
 		name := fmt.Sprintf("Attestations for slot %d", slot)
